@@ -296,8 +296,11 @@ def unmarshal_event(fmt, buf, dec=None):
     dec = dec or decoder(fmt)
     e = {"ev": "Unmarshal", "fmt": fmt, "bytes": list(buf), "out": {}, "exc": ""}
     try:
-        r = dec(bytearray(buf))
+        b = bytearray(buf)
+        r = dec(b)
         e["out"] = flatten(r) if r is not None else {}
+        if bytes(b) != bytes(buf):
+            e["exc"] = "DecoderChangedTheBuffer"       # the data-in buffer belongs to the command: decoding reads it
     except Exception as ex:
         e["exc"] = type(ex).__name__
     if not e["out"]:
